@@ -80,7 +80,7 @@ Print Assumptions recover_prefix.
    acknowledged transaction is recovered, in order, and whatever else is recovered is a prefix of
    the transactions that were in flight.
    NOT proved (exercised by the tie): the in-memory rollback of the host after an injected store
-   fault, the writer-epoch ledger, and the repair rewrite (which is NOT crash-atomic, see below). *)
+   fault, the writer-epoch ledger, and the atomicity of the repair rewrite (temp file + rename since /repo commit 5e38e24). *)
 Theorem ack_durable_partial : forall (H : bytes -> N) sid l0 acked inflight k,
   log_valid H l0 (acked ++ inflight) ->
   Forall (fun f => f_seg f = sid) (log_frames (acked ++ inflight)) ->
@@ -117,20 +117,6 @@ Check recover_idempotent : forall (H : bytes -> N) l0 ts k,
     Ok (map rtx_of (whole_within (tx_size H) k ts), TClean) /\
   repair H (repair H (firstn k (log_bytes H ts))) = repair H (firstn k (log_bytes H ts)).
 Print Assumptions recover_idempotent.
-
-(* The repair (rewrite_filesystem_segments_after_truncation) unlinks the segment and re-appends every
-   kept frame followed by every kept commit marker.  Full statement "a process stop at any point of
-   the repair still recovers every acknowledged transaction" is FALSE of the faithful model: *)
-Theorem repair_rewrite_kill_refuted : exists (H : bytes -> N) (disk : bytes) (m : nat),
-  (exists acked tl, acked <> [] /\ recover_store H disk = Ok (acked, tl)) /\
-  (m < length (repair H disk))%nat /\
-  summarize (recover_store H (firstn m (repair H disk))) = summarize (Ok ([], TAll)).
-Proof. exact repair_kill_exists. Qed.
-Check repair_rewrite_kill_refuted : exists (H : bytes -> N) (disk : bytes) (m : nat),
-  (exists acked tl, acked <> [] /\ recover_store H disk = Ok (acked, tl)) /\
-  (m < length (repair H disk))%nat /\
-  summarize (recover_store H (firstn m (repair H disk))) = summarize (Ok ([], TAll)).
-Print Assumptions repair_rewrite_kill_refuted.
 
 (* Non-vacuity: a concrete three-transaction log is valid, its encoding has every record in range,
    and cutting it in the middle of the third transaction recovers the first two with the tail
